@@ -1124,6 +1124,19 @@ pub fn run_history(ctx: &mut Ctx, src: &mut Source, seed: u64) -> Option<History
                         .map_or(false, |t| feat != "none" && (t.def.cols.iter().any(|c| c.pk || c.unique || c.not_null || c.check.is_some() || c.fk.is_some()) || t.indexes.iter().any(|i| i.unique)));
                     let mentions_constraint = e.contains("constraint") || e.contains("already exists") || e.contains("violat");
                     sig.push(("err", err_class(e)));
+                    // an INSERT that leaves the AUTO_INCREMENT column to the engine and is refused for a
+                    // key collision although every other value is acceptable: the generated id itself
+                    // collided with a stored row (C12: generated values are distinct from every value
+                    // the column holds)
+                    let generated_insert = match (op, tname.as_ref().and_then(|t| view_before.tables.get(t))) {
+                        (Op::Insert { cols: Some(cs), .. }, Some(t)) => {
+                            t.auto_col().map_or(false, |ac| !cs.contains(&t.def.cols[ac].name) && e.contains(&format!("column '{}'", t.def.cols[ac].name)))
+                        }
+                        _ => false,
+                    };
+                    if generated_insert && mentions_constraint {
+                        ctx.violate("C12", "generated-id-rejected", &sig, format!("{}: model accepts it, engine: {}", desc, actual.brief()), None);
+                    }
                     if op.is_write() && !op.is_ddl() && constrained && mentions_constraint {
                         ctx.violate("C09", "valid-write-rejected", &sig, format!("{}: model accepts it, engine: {}", desc, actual.brief()), None);
                     } else {
